@@ -27,6 +27,10 @@
 (***************************************************************************)
 EXTENDS Naturals, Integers, Sequences, FiniteSets
 
+\* a named deviation of the era arithmetic (FALSE everywhere but in Dev_Time_century.cfg, which expects TLC's counterexample to Inverse):
+\* the years of an era counted without the century correction
+CONSTANT DevNoCenturyRule
+
 IsLeap(y) == (y % 4 = 0 /\ y % 100 # 0) \/ y % 400 = 0
 DaysInMonth(y, m) == CASE m \in {1, 3, 5, 7, 8, 10, 12} -> 31
                        [] m \in {4, 6, 9, 11} -> 30
@@ -48,7 +52,7 @@ Civil(z0) ==
   LET z == z0 + 719468
       era == z \div 146097
       doe == z % 146097
-      yoe == (doe - doe \div 1460 + doe \div 36524 - doe \div 146096) \div 365
+      yoe == IF DevNoCenturyRule THEN (doe - doe \div 1460) \div 365 ELSE (doe - doe \div 1460 + doe \div 36524 - doe \div 146096) \div 365
       doy == doe - (365 * yoe + yoe \div 4 - yoe \div 100)
       mp == (5 * doy + 2) \div 153
       d == doy - (153 * mp + 2) \div 5 + 1
